@@ -98,7 +98,7 @@ def run(check, tier, seed, scratch):
     # the property quantifies over decorator functions (func, <own params>, *args, **kwargs): both star parameters present
     UO = [ps for ps in U2 if any(p['k'] == 'var' for p in ps) and any(p['k'] == 'vkw' for p in ps)]
     UB = [c04.rename(ps, {'a': 'x', 'b': 'y'}) for ps in U2]
-    nst, ncomb = (5000, 3000) if quick else (200000, 60000)
+    nst, ncomb = (5000, 3000) if quick else (40000, 15000)
     run_trace_leg(check, scratch, 'stacks+combinations', chain(stack_gen(UO, UB, nst, seed), comb_gen(UB, ncomb, seed + 7)), None,
                   module='Trace_Wrap', describe=wrapstack.describe, classify=classify)
     check.cov['exhaustive'] = False
